@@ -112,6 +112,17 @@ def check(case):
         raise Violation("not_reproducible", "same callable, same np.random.seed(%d): different draws; %s" % (case["seed"], ctx))
     if k != "zero" and n >= 2 and np.array_equal(first, second):
         raise Violation("degenerate_stream", "two consecutive draws are identical; %s" % ctx)
+    # a copy of the callable (an ANM deep-copies the distributions it is given) still draws from the *global* generator
+    import copy
+    dup = lib(copy.deepcopy, fac)
+    if dup.ok and callable(dup.value):
+        np.random.random(case.get("burn", 3) + 1)
+        np.random.seed(case["seed"])
+        viacopy = np.asarray(must(lib(dup.value, n), "draw from a deep copy of the callable"))
+        if not np.array_equal(first, viacopy):
+            raise Violation("copy_not_on_global_generator", "np.random.seed(%d) then a deep copy of the callable: draws differ from those "
+                            "of the original after the same seeding; %s" % (case["seed"], ctx))
+        lab.append("deepcopy")
     if k == "zero":
         import sempler.noise as noise
         fresh = np.asarray(must(lib(noise.zero(), n), "zero() from a fresh factory"))
